@@ -248,10 +248,52 @@ Definition localtime_row_ok_with (reg : list site_entry) (r : ambient_site) : bo
   String.eqb (am_kind r) "localtime" && registered reg r.
 Definition localtime_row_ok := localtime_row_ok_with localtime_registry.
 
+(* ---- aliases of process-wide pointer-carrying values (rows emitted by
+   tools/goextract/emit_maprange_alias.go).  sdk.Dec / Int / Uint / Coin(s) / DecCoin(s) / big.Int
+   values are structs around a *big.Int: a COPY of a package-level variable (or of a field of a
+   state-machine struct) of such a type shares the big.Int with the original.  The value API never
+   writes through the pointer; Unmarshal / UnmarshalJSON / Set* / *Mut / the mutating math/big methods
+   and every decoder handed the address of the copy do, and then the default of the whole process
+   has changed.  The translator follows every copy through locals, fields, literals, parameters and
+   results of the repository's functions (whole-program, flow- and field-insensitive).  Kinds:
+     procstate-alias      an alias handed by address to a function the scan cannot look into and
+                          that is not known to only read it, or used as the receiver of an in-place /
+                          pointer-receiver method: accepted only when registered below
+     procstate-alias-src  one row per variable / field the analysis follows, am_callers = the
+                          functions whose RESULT is an alias of it (listed under the first source they
+                          alias): informational, always accepted ---- *)
+
+(* the alias sites of the unchanged tree, each read and found harmless:
+   - asset.SetParams(ctx, params): k.params.SetParamSet(ctx, &params) with params possibly
+     types.DefaultParams() (InitGenesis of the default genesis, the v11 upgrade handlers).
+     x/params/types/subspace.go SetParamSet: for every pair of params.ParamSetPairs() it takes
+     reflect.Indirect(reflect.ValueOf(pair.Value)).Interface() - a COPY of the field -, runs the
+     validator on it and stores its amino-JSON encoding (Subspace.Set -> legacyAmino.MarshalJSON);
+     nothing is decoded into or assigned through the pointer;
+   - liquidity.UpdateGenericParams: genericParams is the result of GetGenericParams (DefaultGenericParams
+     when the app has none yet); reflect.ValueOf(&genericParams).Elem().FieldByName(k).Set(v) ASSIGNS the
+     field of the local copy (for a Dec / Int / Coins field: replaces the struct holding the pointer by the
+     freshly parsed one); the big.Int the old field value pointed to is not written. *)
+Definition procstate_alias_registry : list site_entry := [
+  mkEntry "asset.SetParams"
+    "passed by address to github.com/cosmos/cosmos-sdk/x/params/types.Subspace.SetParamSet: an alias of package variable x/asset/types.DefaultAssetRegistrationFee" false;
+  mkEntry "liquidity.UpdateGenericParams"
+    "passed by address to reflect.ValueOf: an alias of package variable x/liquidity/types.DefaultMinInitialPoolCoinSupply" false]%string.
+Definition is_alias_kind (k : string) : bool := String.eqb k "procstate-alias" || String.eqb k "procstate-alias-src".
+Definition alias_row_ok_with (reg : list site_entry) (r : ambient_site) : bool :=
+  if String.eqb (am_kind r) "procstate-alias" then registered reg r
+  else String.eqb (am_kind r) "procstate-alias-src".
+Definition alias_row_ok := alias_row_ok_with procstate_alias_registry.
+(* nothing registered is stale, and the analysis ranged over something *)
+Definition alias_registry_live (t : list ambient_site) : bool :=
+  forallb (fun e => existsb (fun r => String.eqb (am_kind r) "procstate-alias" && entry_matches r e) t) procstate_alias_registry &&
+  existsb (fun r => String.eqb (am_kind r) "procstate-alias-src") t.
+
 (* a row of a kind this file does not know fails *)
 Definition ambient_row_ok (r : ambient_site) : bool :=
   let k := am_kind r in
   if is_procstate_kind k then procstate_row_ok r
+  else if is_alias_kind k then alias_row_ok r
   else if String.eqb k "localtime" then localtime_row_ok r
   else classic_row_ok r.
 
